@@ -24,6 +24,29 @@ class Inconclusive(Exception):
     pass
 
 
+CRASH_MARKS = ("fatal error:", "unexpected signal", "SIGSEGV", "SIGBUS", "runtime: ", "unexpected fault address")
+
+
+def exec_proc(ctx, cmd, what, cfg, family, cell):
+    """Run the executor.  A Go runtime crash (not a recoverable panic) inside the run is behaviour of the code
+    under test: it is confirmed by a second identical run and then reported as <pid>.crash."""
+    p, dt = run(cmd, 900)
+    if p.returncode == 0:
+        return json.loads(p.stdout.strip().splitlines()[-1])
+    if any(m in p.stdout for m in CRASH_MARKS):
+        first = next((l for l in p.stdout.splitlines() if any(m in l for m in CRASH_MARKS)), "")
+        p2, _ = run(cmd, 900)
+        if p2.returncode != 0 and any(m in p2.stdout for m in CRASH_MARKS):
+            ctx.violations.append(dict(cls=ctx.pid + ".crash", detail=first[:200], line=0, ops=None, cfg=cfg, family=family,
+                                       cell=cell, cmd=cmd))
+            return None
+        if p2.returncode == 0:
+            # not reproducible (e.g. timing of the garbage collector): noted, the completed run is used
+            ctx.stats.setdefault("flaky_crashes", []).append(dict(family=family, cell=cell, first_line=first[:200]))
+            return json.loads(p2.stdout.strip().splitlines()[-1])
+    raise Inconclusive("%s failed (harness defect, not a verdict):\n%s" % (what, p.stdout[-2000:]))
+
+
 def log(*a):
     print(*a, file=sys.stderr, flush=True)
 
@@ -100,6 +123,36 @@ FAMILIES = {
     ),
 }
 
+FAMILIES["shrink"] = dict(
+    consts=dict(CompSeq=["R"], RelSet=S("R"), CapN=1, CapR=1, ResetThr=1, MaxIds=4, MaxGen=1, MaxTabs=6, ValMode="const",
+                OpKinds=S("New", "Kill", "SetRel", "Shrink", "Remove", "Add"),
+                NewSets=S(S(), S("R")), DeltaSets=S(S("R")),
+                FilterCat=[F(with_=["R"])], RegCat=S()),
+    tiers=dict(quick=dict(MaxHist=7), thorough=dict(MaxHist=9)),
+    exec=dict(comps=["R"]),
+)
+
+FAMILIES["wide"] = dict(
+    consts=dict(CompSeq=["A", "B", "C", "R"], RelSet=S("R"), CapN=2, CapR=1, ResetThr=1, MaxIds=12, MaxGen=3, MaxTabs=64,
+                EmitMode="last",
+                OpKinds=S("New", "Add", "Remove", "Exchange", "Set", "SetRel", "Kill", "Copy", "Shrink", "KillBatch", "SetRelBatch",
+                          "RegF", "UnregF"),
+                NewSets=S(S(), S("A"), S("B"), S("C"), S("R"), S("A", "B"), S("A", "C"), S("B", "C"), S("A", "R"), S("B", "R"),
+                          S("C", "R"), S("A", "B", "C"), S("A", "B", "R"), S("A", "C", "R"), S("B", "C", "R"), S("A", "B", "C", "R")),
+                DeltaSets=S(S("A"), S("B"), S("C"), S("R"), S("A", "B")),
+                FilterCat=[F(with_=["R"]), F(with_=["R"], qtc=["R"]), F(with_=["A"]), F(with_=["R"], ftc=["R"])], RegCat=S(1, 3, 4)),
+    tiers=dict(quick=dict(MaxHist=40), thorough=dict(MaxHist=60)),
+    simulate=dict(quick=dict(num=1500), thorough=dict(num=20000)),
+    exec=dict(comps=["A", "B", "C", "R"]),
+)
+
+# seeded random drivers (real code -> specification): long histories at larger scale, DESIGN.md 4.2
+DRIVES = {
+    "wide": dict(comps=["A", "B", "C", "R"], maxent=20, quick=dict(count=160, len=300), thorough=dict(count=3000, len=500)),
+    "rel2": dict(comps=["A", "R", "S"], maxent=14, quick=dict(count=160, len=250), thorough=dict(count=3000, len=400)),
+    "plain": dict(comps=["A", "B", "C"], maxent=40, quick=dict(count=100, len=400), thorough=dict(count=1500, len=800)),
+}
+
 # executor cells: the quantifiers the specification does not range over
 CELLS = {
     "typed1":   dict(path="typed", caps=[1], relst="idx"),
@@ -112,15 +165,24 @@ CELLS = {
 
 # property -> list of (family, [cells]) ; quick picks a seed-chosen subset of cells
 PLANS = {
-    "C01": [("core", ["typed1", "unsafe1", "exch8", "typed11", "typedfill"]), ("rel", ["typed1", "unsafe2"])],
-    "C02": [("core", ["typed1", "unsafe1"]), ("rel", ["typed11", "unsafe1"])],
-    "C03": [("core", ["typed1", "unsafe1", "typedfill"]), ("rel", ["typed1", "unsafe1", "typed11"]), ("cache", ["typed1"])],
-    "C04": [("rel", ["typed1", "unsafe1", "typed11", "unsafe2"])],
-    "C05": [("cache", ["typed1", "typed11", "unsafe1"])],
-    "C15": [("rel", ["typed1", "unsafe2"]), ("cache", ["typed1", "unsafe1"])],
+    "C01": [("core", ["typed1", "unsafe1", "exch8", "typed11", "typedfill"]), ("rel", ["typed1", "unsafe2"]),
+            ("drive:wide", ["typed1", "unsafe2", "exch8"]), ("drive:plain", ["typed11", "unsafe1"])],
+    "C02": [("core", ["typed1", "unsafe1"]), ("rel", ["typed11", "unsafe1"]), ("drive:wide", ["typed1", "unsafe2"]),
+            ("drive:rel2", ["typed11", "unsafe1"])],
+    "C03": [("core", ["typed1", "unsafe1", "typedfill"]), ("rel", ["typed1", "unsafe1", "typed11"]), ("cache", ["typed1"]),
+            ("drive:wide", ["typed1", "unsafe2"]), ("drive:rel2", ["typed11", "unsafe1"])],
+    "C04": [("rel", ["typed1", "unsafe1", "typed11", "unsafe2"]), ("drive:rel2", ["typed11", "unsafe1"]),
+            ("drive:wide", ["typed1", "unsafe2"])],
+    "C05": [("cache", ["typed1", "typed11", "unsafe1"]), ("drive:wide", ["typed1", "unsafe2"]), ("drive:rel2", ["typed11", "unsafe1"])],
+    "C15": [("rel", ["typed1", "unsafe2"]), ("cache", ["typed1", "unsafe1"]), ("shrink", ["typed1", "unsafe2"]),
+            ("drive:wide", ["typed1", "unsafe2"]), ("drive:rel2", ["typed11", "unsafe1"])],
 }
 
-LEVEL_TEXT = {}
+# per-property executor settings (quick, thorough): probes = query battery size, misuse = misuse battery size
+PROP_CFG = {
+    "C10": (dict(probes=0, misuse=10), dict(probes=0, misuse=-1)),
+}
+PLANS["C10"] = [("core", ["typed1", "unsafe1", "exch8"]), ("rel", ["typed1", "unsafe1", "typed11"])]
 
 
 # ------------------------------------------------------------------------------------------
@@ -159,7 +221,8 @@ def build_executor(ctx, tags="verif"):
 def write_model(ctx, fam, over=None, inv=None):
     """Instantiate family `fam` as MC_<fam>.tla + cfg in the work directory."""
     f = FAMILIES[fam]
-    consts = dict(f["consts"])
+    consts = dict(ValMode="ord", EmitPct=100, EmitSeed=ctx.seed, EmitMode="all")
+    consts.update(f["consts"])
     consts.update(f["tiers"][ctx.tier])
     if over:
         consts.update(over)
@@ -195,9 +258,18 @@ def run_generator(ctx, fam, timeout, invariants=None):
     over_inv = invariants
     d, consts = write_model(ctx, fam, inv=over_inv)
     outp = os.path.join(d, "tlc.out")
-    cmd = ["tlc", "-workers", str(NCPU), "-metadir", os.path.join(d, "meta"),
-           "-dumpTrace", "json", os.path.join(d, "cex.json"),
-           "-config", "MC_%s.cfg" % fam, "MC_%s.tla" % fam]
+    sim = FAMILIES[fam].get("simulate")
+    if sim:
+        sim = sim[ctx.tier]
+        w = 8
+        cmd = ["tlc", "-workers", str(w), "-simulate", "num=%d" % max(1, sim["num"] // w), "-depth", str(consts["MaxHist"] + 1),
+               "-seed", str(ctx.seed), "-metadir", os.path.join(d, "meta"),
+               "-dumpTrace", "json", os.path.join(d, "cex.json"),
+               "-config", "MC_%s.cfg" % fam, "MC_%s.tla" % fam]
+    else:
+        cmd = ["tlc", "-workers", str(NCPU), "-metadir", os.path.join(d, "meta"),
+               "-dumpTrace", "json", os.path.join(d, "cex.json"),
+               "-config", "MC_%s.cfg" % fam, "MC_%s.tla" % fam]
     ctx.stats["tlc_cmds"].append(" ".join(cmd[:3] + cmd[7:]) + "  # family %s %s" % (fam, json.dumps(
         {k: v for k, v in consts.items() if isinstance(v, int)})))
     with open(outp, "wb") as fo:
@@ -221,6 +293,11 @@ def run_generator(ctx, fam, timeout, invariants=None):
             res["design_violation"] = m.group(2) or m.group(1)
         else:
             raise Inconclusive("TLC failed on family %s:\n%s" % (fam, text[-3000:]))
+    elif sim:
+        m = re.search(r"states checked: (\d+)", text) or re.search(r"(\d+) states checked", text)
+        gen = dist = int(m.group(1)) if m else n * consts["MaxHist"]
+        if n == 0:
+            raise Inconclusive("TLC simulation produced no behaviour for family %s:\n%s" % (fam, text[-2000:]))
     elif "Model checking completed" not in text:
         raise Inconclusive("TLC did not complete on family %s:\n%s" % (fam, text[-2000:]))
     ctx.stats["states"] += dist
@@ -245,10 +322,8 @@ def run_exec(ctx, seqfile, cfg, outprefix, shards, keep=1000):
         outp = "%s.%d.ndjson" % (outprefix, i)
         cmd = [ctx.binpath, "-in", seqfile, "-out", outp, "-cfg", json.dumps(cfg), "-shards", str(shards),
                "-shard", str(i), "-keep", str(keep)]
-        p, dt = run(cmd, 900)
-        if p.returncode != 0:
-            raise Inconclusive("executor failed (harness defect, not a verdict):\n" + p.stdout[-2000:])
-        return outp, json.loads(p.stdout.strip().splitlines()[-1])
+        st = exec_proc(ctx, cmd, "executor", cfg, os.path.basename(os.path.dirname(outprefix)), os.path.basename(outprefix))
+        return outp, (st or dict(read=0, executed=0, events=0, panics=0, crashed=True))
     with ThreadPoolExecutor(max_workers=shards) as ex:
         return list(ex.map(one, range(shards)))
 
@@ -325,6 +400,51 @@ def replay_family(ctx, gen, cells, keep, probes, extra_cfg=None):
                         os.remove(pth)
 
 
+def drive_family(ctx, name, cells, probes, extra_cfg=None):
+    """Seeded random histories on the real world, validated by the monitor."""
+    dr = DRIVES[name]
+    t = dr[ctx.tier]
+    d = os.path.join(ctx.work, "drive-" + name)
+    os.makedirs(d, exist_ok=True)
+    for tl in glob.glob(os.path.join(SPEC, "*.tla")):
+        shutil.copy(tl, d)
+    shards = max(1, MON_PAR // max(1, len(cells)))
+    per = max(1, t["count"] // (shards * len(cells)))
+    jobs = []
+    for ci, cell in enumerate(cells):
+        for sh in range(shards):
+            cfg = dict(CELLS[cell])
+            cfg.update(comps=dr["comps"], probes=probes, seed=ctx.seed * 100003 + ci * 1009 + sh, reuse=True, maxent=dr["maxent"])
+            if extra_cfg:
+                cfg.update(extra_cfg)
+            jobs.append((cell, cfg, os.path.join(d, "log-%s.%d.ndjson" % (cell, sh))))
+    t0 = time.time()
+
+    def one(j):
+        cell, cfg, outp = j
+        st = exec_proc(ctx, [ctx.binpath, "-drive", str(per), "-len", str(t["len"]), "-out", outp, "-cfg", json.dumps(cfg)],
+                       "driver", cfg, "drive:" + name, cell)
+        return st or dict(read=0, executed=0, events=0, panics=0, crashed=True)
+    with ThreadPoolExecutor(max_workers=NCPU) as ex:
+        stats = list(ex.map(one, jobs))
+    t1 = time.time()
+    live = [(j, stt) for j, stt in zip(jobs, stats) if not stt.get("crashed")]
+    jobs, stats = [j for j, _ in live], [stt for _, stt in live]
+    with ThreadPoolExecutor(max_workers=MON_PAR) as ex:
+        verdicts = list(ex.map(lambda j: run_monitor(ctx, j[2]), jobs))
+    log("  drive %s: %d histories x %d ops in %d logs (%.0fs), monitor (%.0fs)" % (name, per * len(jobs), t["len"], len(jobs), t1 - t0, time.time() - t1))
+    for (cell, cfg, lp), stt, v in zip(jobs, stats, verdicts):
+        if v["seqs"] != stt["executed"] or v["lines"] != stt["events"]:
+            raise Inconclusive("monitor consumed %s/%s lines of %s" % (v["lines"], stt["events"], lp))
+        ctx.stats["traces"] += v["seqs"]
+        ctx.stats["events"] += v["lines"]
+        for vi in v["viol"]:
+            ops = load_seq_of_log(lp, vi["seq"])
+            ctx.violations.append(dict(cls=vi["cls"], detail=vi["d"], line=vi["l"], ops=ops, cfg=cfg, family="drive:" + name, cell=cell))
+        ctx.stats["cells"].append(dict(family="drive:" + name, cell=cell, cfg=cfg, sequences=stt["executed"], events=stt["events"], panics=stt["panics"]))
+    ctx.stats["families"].append(dict(family="drive:" + name, histories=per * len(jobs), ops_each=t["len"], maxent=dr["maxent"]))
+
+
 def choose_cells(ctx, cells):
     if ctx.tier == "thorough" or len(cells) <= 2:
         return cells
@@ -366,7 +486,7 @@ def write_replay(ctx, v, n):
     os.makedirs(d, exist_ok=True)
     p = os.path.join(d, "%s-%s-%d.json" % (ctx.pid, v["cls"].replace(".", "_"), n))
     json.dump(dict(property=ctx.pid, cls=v["cls"], detail=v["detail"], family=v["family"], cfg=v["cfg"], ops=v["ops"],
-                   line=v["line"]), open(p, "w"), indent=1)
+                   line=v["line"], cmd=v.get("cmd")), open(p, "w"), indent=1)
     return p
 
 
@@ -437,6 +557,8 @@ def finish(ctx, level_text):
             print("  class=%s detail=%s cell=%s ops=%s" % (v["cls"], json.dumps(v["detail"])[:200], v["cell"],
                                                         " ".join(o["op"] for o in (v["ops"] or []))))
     st = ctx.stats
+    if os.environ.get("VERIF_DUMP"):
+        json.dump(ctx.violations, open(os.environ["VERIF_DUMP"], "w"), default=list)
     hist = {}
     for v in ctx.violations:
         hist[v["cls"]] = hist.get(v["cls"], 0) + 1
@@ -464,6 +586,7 @@ def finish(ctx, level_text):
             other_property_classes_seen=sorted({v["cls"] for v in other}),
             known_findings_hit=sorted(hits.keys()),
             design_findings=st["design_findings"],
+            flaky_crashes=st.get("flaky_crashes", []),
         ),
         assumptions=["TLC, the Go toolchain and the executor/monitor pair are trusted", level_text],
         wall_s=round(time.time() - ctx.t0, 1),
@@ -479,6 +602,11 @@ def check_generic(ctx):
     build_executor(ctx)
     quick = ctx.tier == "quick"
     for fam, cells in plan:
+        pc = PROP_CFG.get(ctx.pid, (dict(probes=6), dict(probes=24)))[0 if quick else 1]
+        if fam.startswith("drive:"):
+            drive_family(ctx, fam[6:], choose_cells(ctx, cells), pc.get("probes", 0),
+                         extra_cfg={k: v for k, v in pc.items() if k != "probes"})
+            continue
         gen = run_generator(ctx, fam, 1500 if not quick else 400)
         if gen["design_violation"] and gen["design_violation"] not in OBSERVABLE_INV:
             # a structural invariant of layer B fails: not observable by itself.  Record it and look for
@@ -500,11 +628,12 @@ def check_generic(ctx):
             continue
         ctx.stats["sequences"] += gen["nseq"]
         # quick tier: replay a seed-chosen sample of the transitions sized to the budget
-        budget = (400000 // len(plan)) if quick else 10 ** 9   # events per family
+        nbfs = len([1 for f, _ in plan if not f.startswith("drive:")])
+        budget = (400000 // nbfs) if quick else 10 ** 9   # events per family
         cs = choose_cells(ctx, cells)
         per_seq = FAMILIES[fam]["tiers"][ctx.tier]["MaxHist"] + 7
         keep = 1000 if gen["nseq"] * len(cs) * per_seq <= budget else max(1, int(1000 * budget / (gen["nseq"] * len(cs) * per_seq)))
-        replay_family(ctx, gen, cs, keep, 6 if quick else 24)
+        replay_family(ctx, gen, cs, keep, pc.get("probes", 0), extra_cfg={k: v for k, v in pc.items() if k != "probes"})
     return finish(ctx, "bounded: see families/cells")
 
 
